@@ -5,8 +5,13 @@ package config
 // Contracts for the gvc verifier (/verif). Comment-only; never compiled into
 // a normal build.
 
+// ObjectFormat.Size: 32 for SHA-256, 20 for everything else (SHA-1 and the
+// unset format, which reads and writes as SHA-1).
 //gvc:func ObjectFormat.Size
-//gvc:  props C10
+//gvc:  props C10 C18 C01
 //gvc:  theory int
+//gvc:  opt coarse
+//gvc:  opt frame args
+//gvc:  ensures size: result == ite(bytes_eq(f, "sha256"), 32, 20)
 //gvc:  ensures twenty: result == 20 || result == 32
 //gvc:end
